@@ -20,6 +20,31 @@ pub fn utc(out: &mut String, d: &UtcDateTime) {
     let _ = write!(out, "UTC[{}-{}-{} {}:{}:{}.{} ut={} wd={} yd={} tot={} '{}']", d.year(), d.month(), d.month_day(), d.hour(), d.minute(), d.second(), d.nanoseconds(), d.unix_time(), d.week_day(), d.year_day(), d.total_nanoseconds(), d);
 }
 
+/// how two values relate under the library's own comparison operators (==, partial_cmp, <, >=)
+pub fn rel<T: PartialOrd>(out: &mut String, a: &T, b: &T) {
+    let _ = write!(out, " rel={:?}/{}{}{}", a.partial_cmp(b), (a == b) as u8, (a < b) as u8, (a >= b) as u8);
+}
+
+/// a list of search results, each with its relation to the one before it
+pub fn found_list<'a>(out: &mut String, it: impl Iterator<Item = &'a FoundDateTimeKind>) {
+    let mut prev: Option<DateTime> = None;
+    for f in it {
+        found(out, f);
+        let first = match f {
+            FoundDateTimeKind::Normal(d) => *d,
+            FoundDateTimeKind::Skipped { before_transition, .. } => *before_transition,
+        };
+        if let Some(p) = prev {
+            rel(out, &p, &first);
+        }
+        prev = Some(match f {
+            FoundDateTimeKind::Normal(d) => *d,
+            FoundDateTimeKind::Skipped { after_transition, .. } => *after_transition,
+        });
+        out.push(';');
+    }
+}
+
 pub fn found(out: &mut String, f: &FoundDateTimeKind) {
     match f {
         FoundDateTimeKind::Normal(d) => {
@@ -32,6 +57,7 @@ pub fn found(out: &mut String, f: &FoundDateTimeKind) {
             dt(out, before_transition);
             out.push(',');
             dt(out, after_transition);
+            rel(out, before_transition, after_transition);
             out.push(')');
         }
     }
